@@ -59,17 +59,13 @@ def translate(repo='/repo'):
         if a:
             ms = re.findall(r'\.\s*fs\s*\.\s*(\w+)\s*\(', bodies.get(h, ''))
             calls.append([n, h, ms])
-    # control-flow fingerprint of every async handler: early exits through `?`, explicit `return`s, error replies,
-    # ok replies, and whether a bytes_to_cstr failure is answered (EINVAL) before the error is returned
+    # handlers that decode a name: is a bytes_to_cstr failure answered (EINVAL) before the error is returned?
     def nostr(b): return re.sub(r'"(?:[^"\\]|\\.)*"', '""', b)
-    prints = []; badname = []
+    badname = {}
     for n, op, h, a in arms:
         if not a: continue
         b = nostr(bodies.get(h, ''))
         if not b: raise TranslateError('body of %s not found' % h)
-        prints.append([n, h, b.count('?'), len(re.findall(r'\breturn\b', b)),
-                       len(re.findall(r'\.\s*async_(?:do_)?reply_error(?:_explicit)?\s*\(', b)),
-                       len(re.findall(r'\.\s*(?:async_reply_ok|async_handle_attr_result|async_commit)\s*\(', b))])
         if 'bytes_to_cstr' in b:
             m2 = re.search(r'match\s+bytes_to_cstr\s*\(.*?\)\s*\{', b, flags=re.S)
             ok = False
@@ -79,14 +75,15 @@ def translate(repo='/repo'):
                 if em:
                     eb = blk[em.end() - 1:]; eb = eb[:match_brace(eb, 0)]
                     ok = bool(re.search(r'async_reply_error(?:_explicit)?\s*\(\s*io::Error::from_raw_os_error\s*\(\s*libc::EINVAL', eb)) and bool(re.search(r'return\s+Err', eb))
-            badname.append([n, h, ok])
+            badname[n] = ok
+    if sorted(badname) != [1, 35]: raise TranslateError('async handlers that decode a name are %s, expected lookup (1) and create (35)' % sorted(badname))
     # fusedev async_commit
     fsrc = strip_comments(open(os.path.join(repo, 'src/transport/fusedev/mod.rs')).read())
     fb = fn_bodies(fsrc)
     def has_unbuffered_return(b): return bool(re.search(r'if\s*!\s*self\.buffered\s*\{\s*return\s+Ok\(0\)', b))
     if 'commit' not in fb or 'async_commit' not in fb: raise TranslateError('commit/async_commit not found in fusedev/mod.rs')
     return {'dispatch': sorted(arms, key=lambda a: [x[0] for x in arms].index(a[0])), 'default_errno': LIBC_ERRNO[dm.group(1)],
-            'gate': gate, 'write_gate_errno': write_gate, 'async_calls': calls, 'fingerprints': prints, 'badname': badname,
+            'gate': gate, 'write_gate_errno': write_gate, 'async_calls': calls, 'badname': badname,
             'commit_skips_unbuffered': has_unbuffered_return(fb['commit']),
             'async_commit_skips_unbuffered': has_unbuffered_return(fb['async_commit'])}
 
@@ -107,12 +104,9 @@ def emit_coq(t):
     L.append('(* (opcode, async handler, AsyncFileSystem methods it awaits) *)')
     L.append('Definition rust_async_calls : list (N * string * list string) := ' + coq_list(
         ['(%d, %s, [%s])' % (n, coq_str(h), '; '.join(coq_str(x) for x in ms)) for n, h, ms in t['async_calls']]) + '.\n')
-    L.append('(* control flow of each async handler: (opcode, handler, `?` early exits, `return`s, error replies, ok replies / commits) *)')
-    L.append('Definition rust_async_fingerprints : list (N * string * (N * N * N * N)) := ' + coq_list(
-        ['(%d, %s, (%d, %d, %d, %d))' % (n, coq_str(h), q, r, e, o) for n, h, q, r, e, o in t['fingerprints']]) + '.\n')
-    L.append('(* handlers that decode a name: is a bytes_to_cstr failure answered with EINVAL before Err is returned? *)')
-    L.append('Definition rust_async_badname_replies : list (N * string * bool) := ' + coq_list(
-        ['(%d, %s, %s)' % (n, coq_str(h), b(x)) for n, h, x in t['badname']]) + '.\n')
+    L.append('(* async_lookup / async_create: is a bytes_to_cstr failure answered with EINVAL before Err is returned (as the sync handlers do)? *)')
+    L.append('Definition rust_async_lookup_badname_replies : bool := %s.' % b(t['badname'][1]))
+    L.append('Definition rust_async_create_badname_replies : bool := %s.\n' % b(t['badname'][35]))
     L.append('(* FuseDevWriter: does commit / async_commit return early on an unbuffered writer? *)')
     L.append('Definition rust_commit_skips_unbuffered : bool := %s.' % b(t['commit_skips_unbuffered']))
     L.append('Definition rust_async_commit_skips_unbuffered : bool := %s.\n' % b(t['async_commit_skips_unbuffered']))
